@@ -35,3 +35,8 @@ claim("C09", "exploration", "exhaustive enumeration of float32 mantissas / float
       "quantise_scale and reduced_quantise_scale are run on all 2^23 float32 mantissas at 3 exponents (thorough: all 68 exponents around the representable range) and on every float64 exponent x 36 mantissas (incl. rounding-up-to-2^31 cases), quantise_pooling_scale on all window sizes 1..65536 with every accumulator an 8-bit window <= 64 (16-bit <= 8; thorough 256/16) can produce, and the elementwise mul/add/sub scale triples on a 40^3 lattice; each result is judged with exact integers/rationals against TFLite's QuantizeMultiplier.",
       "Hardware range is read as 2^-33 <= s < 2^31 (canonical form exists); for negative accumulators round-half-up is read on the magnitude (ties away from zero, as the TFLite reference average pool); elementwise expressions are evaluated with double-precision operands.",
       "DESIGN.md section 4 C09")
+
+claim("C19", "exploration", "exhaustive enumeration of 8/16-bit operand domains and table codes through the real helpers / the real compiler against gemmlowp and reference-kernel definitions on unbounded integers",
+      "fp_math helpers on every int16 value x 45 boundary operands x the operand types the call sites use (int, np.int16, np.int32), 32-bit helpers on a 190-point boundary lattice squared and all exponents, exp_on_negative_values on the 2^17-point Q5.26 lattice; QUANTIZE constant folding on all int8 / strided int16 constants x quantisation lattice and float constants at every half-integer multiple of the scale +-1 ulp; all 256 codes of every sigmoid/tanh/leaky-relu/hard-swish table taken from compiled output files over a quantisation lattice.",
+      "References are written from the public gemmlowp/TFLite definitions (vfw/ref/quant.py); table entries within 1e-4 LSB of a tie accept both neighbours; hard-swish/leaky-relu entries may equal the TFLite integer kernel instead of the rounded real function; 32-bit operand products are a boundary lattice.",
+      "DESIGN.md section 4 C19")
